@@ -69,6 +69,43 @@ Unify(eqs, s) ==
        ELSE [ok |-> FALSE, s |-> s]
 
 ---------------------------------------------------------------------------
+(* Field access.  e.F on an expression whose record type is not known yet is a DEFERRED constraint <<"fld", te, F, r>> (r the type  *)
+(* of the access): it becomes the equation r = type of field F of R once te is resolved to a record type R<..> by the equations; *)
+(* if te is never determined by the rest of the function the function is not typable (there is no row polymorphism).             *)
+(* The user record types of the generated packages:                                                                              *)
+SVar(k) == <<"svar", k>>
+RecordFields ==
+  [IR1 |-> <<<<"A", B("int")>>, <<"B", B("string")>>>>,
+   IR2 |-> <<<<"Name", B("string")>>, <<"Vals", <<"slice", B("int")>>>>>>,
+   IBox |-> <<<<"Val", SVar(1)>>, <<"Tag", B("string")>>>>]
+RECURSIVE InstArgs(_, _)
+InstArgs(t, targs) ==
+  CASE t[1] = "svar"  -> targs[t[2]]
+    [] t[1] \in {"base", "unit", "var"} -> t
+    [] t[1] = "slice" -> <<"slice", InstArgs(t[2], targs)>>
+    [] t[1] = "tuple" -> <<"tuple", [i \in 1..Len(t[2]) |-> InstArgs(t[2][i], targs)]>>
+    [] t[1] = "func"  -> <<"func", [i \in 1..Len(t[2]) |-> InstArgs(t[2][i], targs)], InstArgs(t[3], targs)>>
+    [] t[1] = "named" -> <<"named", t[2], [i \in 1..Len(t[3]) |-> InstArgs(t[3][i], targs)]>>
+HasField(rt, f) == rt[1] = "named" /\ rt[2] \in DOMAIN RecordFields /\ \E i \in 1..Len(RecordFields[rt[2]]) : RecordFields[rt[2]][i][1] = f
+FieldType(rt, f) == LET fs == RecordFields[rt[2]]
+                        i == CHOOSE j \in 1..Len(fs) : fs[j][1] = f
+                    IN InstArgs(fs[i][2], rt[3])
+
+IsFld(c) == Len(c) = 4
+\* constraints = equations <<t1, t2>> and deferred field constraints <<"fld", te, F, r>>, in any order
+RECURSIVE SolveAll(_, _)
+SolveAll(eqs, flds) ==
+  LET u == Unify(eqs, NoSubst) IN
+  IF ~u.ok \/ flds = <<>> THEN u
+  ELSE LET ready == {i \in 1..Len(flds) : Apply(u.s, flds[i][2])[1] # "var"} IN
+       IF ready = {} THEN [ok |-> FALSE, s |-> u.s]                                  \* a record type that nothing determines
+       ELSE IF \E i \in ready : ~HasField(Apply(u.s, flds[i][2]), flds[i][3]) THEN [ok |-> FALSE, s |-> u.s]
+       ELSE LET idx == CHOOSE i \in ready : \A j \in ready : i <= j
+                neweq == <<flds[idx][4], FieldType(Apply(u.s, flds[idx][2]), flds[idx][3])>>
+            IN SolveAll(Append(eqs, neweq), [j \in 1..(Len(flds) - 1) |-> IF j < idx THEN flds[j] ELSE flds[j + 1]])
+Solve(cs) == SolveAll(SelectSeq(cs, LAMBDA c : ~IsFld(c)), SelectSeq(cs, IsFld))
+
+---------------------------------------------------------------------------
 (* Part 2: the emitted signature *)
 \* remaining variables in order of first occurrence: parameters, then result
 RECURSIVE Dedup(_, _)
@@ -87,7 +124,7 @@ Rename(order, t) ==
 
 \* fn: [eqs, params |-> <<types>>, res |-> type]
 Principal(fn) ==
-  LET u == Unify(fn.eqs, NoSubst)
+  LET u == Solve(fn.eqs)
       ps == [i \in 1..Len(fn.params) |-> Apply(u.s, fn.params[i])]
       r == Apply(u.s, fn.res)
       order == Dedup(VarsSeq(ps) \o Vars(r), {})
